@@ -78,6 +78,12 @@ class NodeVal:                # Node by value
 
 
 @dataclass(frozen=True)
+class OptNode:                # std::optional<Node>
+    has: Any
+    node: NodeVal
+
+
+@dataclass(frozen=True)
 class Iter:
     oid: int
     pos: Any                  # forward: element index; reverse: distance from rbegin
